@@ -28,6 +28,10 @@ def reset():
 
 
 # ---- token positions, looked up exactly as formula.py does ------------------
+def blen(s):
+    return len(s.encode("utf-8"))
+
+
 def first_funcdef(atok):
     for node in ast.walk(atok.tree):
         if isinstance(node, ast.FunctionDef):
@@ -57,7 +61,10 @@ def def_positions(src):
         if atok.tokens[i].type == token.NAME and atok.tokens[i].string == "def":
             break
     t = atok.tokens[i + 1]
-    out["npos"] = [t.start[0], t.start[1], t.end[1]]
+    line = s1.split("\n")[t.start[0] - 1]
+    # columns as UTF-8 byte offsets (the Coq model works on bytes)
+    out["npos"] = [t.start[0], blen(line[:t.start[1]]), blen(line[:t.end[1]])]
+    out["npos_chars"] = [t.start[0], t.start[1], t.end[1]]
     out["npos_sameline"] = t.start[0] == t.end[0]
     return out
 
@@ -69,7 +76,7 @@ def doc_positions(src):
     prev = atok.tokens[st.first_token.index - 1]
     has = isinstance(st, ast.Expr) and isinstance(st.value, ast.Constant) and isinstance(st.value.value, str)
     return {"indent": prev.string if prev.type == token.INDENT else None, "has": has,
-            "P": prev.startpos, "S": st.first_token.startpos, "E": st.first_token.endpos}
+            "P": blen(src[:prev.startpos]), "S": blen(src[:st.first_token.startpos]), "E": blen(src[:st.first_token.endpos])}
 
 
 def lambda_positions_source(src):
@@ -78,7 +85,7 @@ def lambda_positions_source(src):
     for node in ast.walk(atok.tree):
         if isinstance(node, ast.Lambda):
             break
-    return {"dedent": d, "b": node.first_token.startpos, "e": node.last_token.endpos}
+    return {"dedent": d, "b": blen(d[:node.first_token.startpos]), "e": blen(d[:node.last_token.endpos])}
 
 
 def lambda_positions_func(func):
@@ -89,7 +96,7 @@ def lambda_positions_func(func):
     if len(lams) != 1:
         return {"file": src, "count": len(lams)}
     n = lams[0]
-    return {"file": src, "count": 1, "b": n.first_token.startpos, "e": n.last_token.endpos}
+    return {"file": src, "count": 1, "b": blen(src[:n.first_token.startpos]), "e": blen(src[:n.last_token.endpos])}
 
 
 # ---- helpers -----------------------------------------------------------------
@@ -97,7 +104,7 @@ def load_module(text):
     _modcount[0] += 1
     name = "mxc20_mod%d" % _modcount[0]
     path = os.path.join(TMP, name + ".py")
-    with open(path, "w") as f:
+    with open(path, "w", encoding="utf-8") as f:
         f.write(text)
     spec = importlib.util.spec_from_file_location(name, path)
     mod = importlib.util.module_from_spec(spec)
@@ -147,6 +154,17 @@ def plain_namespace(globs):
     return ns
 
 
+def file_header(globs, deco):
+    h = ("import modelx as mx\nREG = []\n"
+         "def grab(f, *a, **k):\n    REG.append(f)\n    return f\n"
+         "def ident(f):\n    return f\n"
+         "def tag(*a, **k):\n    def deco(f):\n        f._tag = (a, tuple(sorted(k)))\n        return f\n    return deco\n"
+         + "".join("%s = %r\n" % kv for kv in sorted(globs.items())) + OTHER_SRC)
+    if deco:
+        h += "SP = mx.cur_space()\n"
+    return h
+
+
 def run_case(c):
     kind = c["kind"]
     if kind == "script":
@@ -185,15 +203,10 @@ def run_case(c):
             raw = c["text"]
             cells = S.new_cells(name=nm, formula=raw)
         elif mode in ("func", "deco"):
-            header = ("import modelx as mx\nREG = []\n"
-                      "def grab(f, *a, **k):\n    REG.append(f)\n    return f\n"
-                      "def ident(f):\n    return f\n"
-                      "def tag(*a, **k):\n    def deco(f):\n        f._tag = (a, tuple(sorted(k)))\n        return f\n    return deco\n"
-                      + "".join("%s = %r\n" % kv for kv in sorted(globs.items())) + OTHER_SRC)
+            header = file_header(globs, mode == "deco")
             if mode == "deco":
                 mx.cur_model(m.name)
                 m.cur_space(S.name)
-                header += "SP = mx.cur_space()\n"
             mod = load_module(header + c["file_body"])
             obj = eval(c["getter"], mod.__dict__)
             if mode == "deco":
@@ -222,6 +235,7 @@ def run_case(c):
                 res["lampos"] = lambda_positions_source(raw)
         else:
             res["defpos"] = def_positions(raw)
+            res["formula_none"] = F.Formula(raw).source
     except Exception as e:
         res["pos_err"] = errname(e) + ": " + str(e)[:200]
     res["created"] = snapshot(cells, argsets)
@@ -245,6 +259,21 @@ def run_case(c):
                 cells.rename(op["name"])
                 st["snap"] = snapshot(cells, argsets)
                 st["in_space"] = op["name"] in S.cells and S.cells[op["name"]] is cells
+            elif op["op"] == "redefine":
+                # @mx.defcells on a def named like an existing cells of the current space
+                mx.cur_model(m.name)
+                m.cur_space(S.name)
+                argsets = [tuple(a) for a in op["args"]]
+                ns2 = plain_namespace(globs)
+                exec(op["plain"], ns2)
+                st["expected"] = call_values(ns2[op["plain_name"]], argsets)
+                st["expected_params"] = list(inspect.signature(ns2[op["plain_name"]]).parameters)
+                mod = load_module(file_header(globs, True) + op["file_body"])
+                obj = eval(op["getter"], mod.__dict__)
+                st["same_object"] = obj is cells
+                st["raw"] = inspect.getsource(mod.REG[-1])
+                st["defpos"] = def_positions(st["raw"])
+                st["snap"] = snapshot(cells, argsets)
             elif op["op"] == "doc":
                 if not is_lambda:
                     st["docpos"] = doc_positions(before)
